@@ -29,10 +29,11 @@ def check(ctx, src):
     ctx.check(makers == [f"{R}:compile_global_or_nonlocal"], "OUTERVAR-CLOSED", "whole-repo|OuterVar constructors", f"OuterVar is constructed at {makers}", R, 0, detail=str(makers))
     hc = cp.func("hy_compile")
     ctx.require(hc is not None, "hy_compile not found")
-    res = pyq.contains(hc, lambda n: isinstance(n, ast.Assign) and norm(n) == "result.stmts = list(map(ResolveOuterVars().visit, result.stmts))")
-    root = pyq.contains(hc, lambda n: isinstance(n, ast.Assign) and norm(n.targets[0]) == "ret" and isinstance(n.value, ast.Call) and dotted(n.value.func) == "root")
-    later = [n for n in pyq.walk_no_nested(hc) if isinstance(n, ast.AugAssign) and "result +=" in norm(n) and res is not None and n.lineno > res.lineno]
-    ctx.check(res is not None and root is not None and res.lineno < root.lineno and any(st is res for st in hc.body) and not later, "OUTERVAR-CLOSED", f"{CP}|hy_compile|resolve-before-root",
+    res = pm.find(hc, "result.stmts = list(map(ResolveOuterVars().visit, result.stmts))")
+    rv_ = res.targets[0].value.id if res is not None and isinstance(res.targets[0], ast.Attribute) and isinstance(res.targets[0].value, ast.Name) else None
+    root = pyq.contains(hc, lambda n: isinstance(n, ast.Call) and dotted(n.func) == "root")
+    later = [n for n in pyq.walk_no_nested(hc) if isinstance(n, ast.AugAssign) and isinstance(n.target, ast.Name) and n.target.id == rv_ and res is not None and n.lineno > res.lineno]
+    ctx.decide("OUTERVAR-CLOSED", f"{CP}|hy_compile|resolve-before-root", None if (res is None or root is None) else (res.lineno < root.lineno and not pyq.guards(res, hc, siblings=False) and not later), 
               "hy_compile must replace OuterVar nodes in all statements, unconditionally, after the last statement was added and before the root node is built", CP, hc.lineno,
               witness="a (nonlocal x) reaches Python's compile() as a custom node: TypeError", detail="result.stmts = map(ResolveOuterVars().visit); then root(...)")
     compiles = []
